@@ -300,6 +300,10 @@ class XMLSchemaBase(XsdValidator, ElementPathMixin[Union[SchemaType, XsdElement]
             if kwargs:
                 ResourceSettings(**kwargs)
             settings = global_maps.settings
+            if base_url is None and settings.allow == 'sandbox' and settings.base_url is None:
+                # Without a base each source derives its own sandbox: a schema that
+                # joins the maps is confined to the sandbox of the main schema.
+                base_url = global_maps.validator.base_url
         else:
             settings = cast(SchemaSettings, SchemaSettings.get_settings(
                 validation=validation,
